@@ -404,6 +404,14 @@ def types(a, env=None, func=False):
                 audits(a.iter, "types", TypeErrorRoot("iterable must be a range"))
         return env
 
+    if isinstance(a, ast.AugAssign):
+        # An augmented assignment is prohibited (the rules pass marks it).  What its
+        # variable holds afterwards is not what it held before: later uses of the
+        # name must not be given the old type.
+        if isinstance(a.target, ast.Name):
+            env.pop(a.target.id, None)
+        return env
+
     if isinstance(a, ast.Expr):
         types(a.value, env, func)
         if not isinstance(audits(a.value, "rules"), SyntaxRestriction):
